@@ -7,7 +7,7 @@ failing encode; a failed publish leaves no 'payload owed' state. Decides code sh
 the runtime histories. id-discipline (continued): SUBSCRIBE/UNSUBSCRIBE are written only after wait_response registered the id (a locally refused send leaves nothing on the wire).
 """
 from facts import *
-from symex import SymEx, cond_map, term_str_v
+from symex import SymEx, cond_map, term_str_v, derived_eq
 
 VERS = ('v3', 'v5')
 SEND = r'ntex_util::channel::pool::Sender::<T>::send$'
@@ -112,6 +112,43 @@ def discr_bool_edges(b, arg):
     return out
 
 
+def _eval_enum_term(F, t, i, j):
+    """Value of a symbolic term over (discriminant of *arg1 = i, discriminant of arg2 = j); None when not evaluable."""
+    def discr(x):
+        while isinstance(x, tuple) and x and x[0] in ('ref', 'deref', 'copy', 'move'):
+            x = x[1]
+        if not isinstance(x, tuple):
+            return None
+        if x[0] == 'arg':
+            return i if x[1] == 1 else j if x[1] == 2 else None
+        if x[0] == 'agg' and len(x) >= 4 and not x[3]:
+            adt = F.adts.get(x[1])
+            if adt:
+                for k, v in enumerate(adt['variants']):
+                    if v['name'] == x[2]:
+                        return k
+        return None
+    def ev(x):
+        if not isinstance(x, tuple) or not x:
+            return None
+        if x[0] == 'const':
+            return x[1]
+        if x[0] == 'bin' and x[1] in ('Eq', 'Ne'):
+            a, b_ = ev(x[2]), ev(x[3])
+            if a is None or b_ is None:
+                return None
+            return int((a == b_) == (x[1] == 'Eq'))
+        if x[0] == 'call' and x[1] == 'std::intrinsics::discriminant_value' and len(x[2]) == 1:
+            return discr(x[2][0])
+        if x[0] == 'call' and len(x[2]) == 2 and re.search(r' as std::cmp::PartialEq>::(eq|ne)$', x[1]) and derived_eq(F, re.sub(r'::ne$', '::eq', x[1])):
+            a, b_ = discr(x[2][0]), discr(x[2][1])
+            if a is None or b_ is None:
+                return None
+            return int((a == b_) == x[1].endswith('::eq'))
+        return None
+    return ev(t)
+
+
 def is_match_table(F, R, ver):
     b = F.one(r'^%s::shared::Ack::is_match$' % ver)
     ack = F.adts['%s::shared::Ack' % ver]
@@ -135,7 +172,7 @@ def is_match_table(F, R, ver):
                     if c[0] == 'ne' and val in c[1]:
                         ok = False
                 if ok:
-                    res = p.ret[1] if p.ret and p.ret[0] == 'const' else None
+                    res = _eval_enum_term(F, p.ret, i, j) if p.ret else None
                     break
             tab['%s,%s' % (av['name'], tv['name'])] = res
             want = 1 if av['name'] == tv['name'] else 0
